@@ -290,7 +290,7 @@ fn finish(ctx: &Ctx, outcome: Outcome, wall: f64, write_evidence: bool) -> i32 {
 
     if !lines.is_empty() {
         for (path, v) in &lines {
-            println!("  [{}] {}", v.monitor, v.what);
+            println!("  [{}] {}", v.monitor, clip(&v.what, 600));
             println!("VIOLATION property={} replay={}", ctx.prop, path);
         }
         return 1;
@@ -310,6 +310,10 @@ fn finish(ctx: &Ctx, outcome: Outcome, wall: f64, write_evidence: bool) -> i32 {
         return 2;
     }
     0
+}
+
+fn clip(s: &str, n: usize) -> String {
+    if s.chars().count() <= n { s.to_string() } else { format!("{}… (+{} chars; full text in the replay file)", s.chars().take(n).collect::<String>(), s.chars().count() - n) }
 }
 
 /// At most 10 samples, evenly spaced over everything the workers kept.
